@@ -214,7 +214,7 @@ def record_traces(pid, scn, gh_exe, seed, histories, steps, nmax, families=None,
                 "mults": list(scn.mults) + ([3] if fam % 2 else [3, 255, 256, 70000]), "weights": [-1, 0, 2, 3] + ([1, 4, 5] if fam % 2 else [1000000, -70000]),
                 "forces": list(scn.forces),
                 "bad": ([0, 1, -1] if scn.bad else []), "kind": scn.kind, "directed": scn.directed,
-                "max_copies": max(scn.maxcopies, 1), "crash_note": os.path.join(d, "crash%d.json" % fam),
+                "max_copies": max(getattr(scn, "trace_copies", 0), scn.maxcopies, 1), "crash_note": os.path.join(d, "crash%d.json" % fam),
                 # multigraph family 1 counts in units of 2^30: a multiplicity above 3 units does not fit 32 bits
                 "mult_cap": 3 if (scn.kind == "multi" and fam % 2) else 0}
         plan.update(scn.scope_plan())
